@@ -31,6 +31,8 @@ class Interp:
         # lists hold one entry per rank (union batch = mean over ranks)
         self.captures: dict[int, dict[str, dict[str, list]]] = {}
         self._cov_cache: dict[tuple, torch.Tensor] = {}
+        # loss scale in effect for each pass (set by the driver)
+        self.scales: dict[int, float] = {}
 
     # -- hyper-parameters ------------------------------------------------
     def hpval(self, d: dict[str, Any]) -> float | None:
@@ -61,7 +63,7 @@ class Interp:
                 c = self._cov_a(mod, t)
             else:
                 if self.cfg.grad_scaler is not None:
-                    t = t / self.cfg.grad_scaler
+                    t = t / self.scales[pid]
                 c = self._cov_g(mod, t)
             acc = c if acc is None else acc + c
         out = acc / len(caps)
